@@ -11,4 +11,4 @@ Definition num_batch_packet_msgs : nat := 10.
 Definition default_send_queue_capacity : N := 1%N.
 Definition default_recv_buffer_capacity : N := 4096%N.
 Definition default_recv_message_capacity : N := 22020096%N.
-Definition max_packet_msg_size_default : N := 1034%N.
+Definition max_packet_msg_size_default : N := 1035%N.
